@@ -123,6 +123,7 @@ func (m *Machine) sliceOfBytes(ts []*Term) []value {
 }
 
 func (m *Machine) bytesOf(v value) []*Term {
+	v = m.resolveSlice(v)
 	switch v := v.(type) {
 	case Str:
 		return m.strBytes(v)
